@@ -1,4 +1,4 @@
-"""pyvc.expr -- expression evaluation (code and spec expressions share it)."""
+"""pvc.expr -- expression evaluation (code and spec expressions share it)."""
 from __future__ import annotations
 import ast
 from .smt import *
@@ -431,6 +431,8 @@ class ExprMixin:
         return TupV(items)
 
     def ev_dict(self, n, st, old):
+        if not n.keys:
+            return EmptyV("dict")
         ks = [self.ev(k, st, old) if k is not None else None for k in n.keys]
         vs = [self.ev(v, st, old) for v in n.values]
         # {**a, **b}: right-biased merge of two maps of equal sort
